@@ -30,6 +30,8 @@ type Ctx struct {
 	specDone   map[string]bool
 
 	defs       map[string]string
+	bstrDone   map[string]bool
+	boundVars  map[string]bool
 	Unmodelled map[string]int // calls havoced for lack of a contract: name -> count
 	AssumedUse map[string]int // assumed (trusted) contracts used: name -> count
 	Inlined    map[string]int
@@ -72,6 +74,8 @@ func NewCtx(w *World, intMode bool) *Ctx {
 		strLits: map[string]string{}, boxed: map[string]bool{}, globals: map[string]int{}, fnConsts: map[string]bool{}, specDone: map[string]bool{},
 		Unmodelled: map[string]int{}, AssumedUse: map[string]int{}, Inlined: map[string]int{}, defs: map[string]string{}}
 	activeDefs = c.defs
+	heapParents = map[string][2]string{}
+	c.boundVars = map[string]bool{}
 	return c
 }
 
@@ -157,6 +161,9 @@ func (c *Ctx) prelude() string {
 	fmt.Fprintf(&b, "(declare-datatypes ((Path 0)) (((proot) (pf (pf_b Path) (pf_k Int)) (pi (pi_b Path) (pi_i %s)))))\n", c.idxSort())
 	b.WriteString("(declare-datatypes ((Loc 0)) (((nil) (at (ref Int) (path Path)))))\n")
 	fmt.Fprintf(&b, "(declare-datatypes ((Slice 0)) (((mk_slice (sl_arr Loc) (sl_off %[1]s) (sl_len %[1]s) (sl_cap %[1]s)))))\n", c.idxSort())
+	if c.Int {
+		b.WriteString("(define-sort Byte () Int)\n")
+	}
 	b.WriteString("(declare-sort Str 0)\n")
 	fmt.Fprintf(&b, "(declare-fun s_len (Str) %s)\n", c.idxSort())
 	fmt.Fprintf(&b, "(declare-fun s_at (Str %s) (_ BitVec 8))\n", c.idxSort())
@@ -215,6 +222,9 @@ func (c *Ctx) sortOf(t types.Type) string {
 	case *types.Basic:
 		if ii, ok := basicInt(u); ok {
 			if c.Int {
+				if ii.w == 8 && !ii.signed {
+					return "Byte" // alias of Int: gives bytes their own heap component
+				}
 				return "Int"
 			}
 			return fmt.Sprintf("(_ BitVec %d)", ii.w)
